@@ -57,7 +57,8 @@ import (
 // c20Case identifies one constant / one table entry (self-contained: the
 // check function looks the object up by name).
 type c20Case struct {
-	Name string // constant or table (+ encoding) name
+	Name string // constant or table (+ packed/generic/vector form) name
+	Enc  string // limb encoding of the build that enumerated the case (u64 / u32): part of the case identity
 	I, J int    // table indices (0 when unused)
 }
 
@@ -287,7 +288,7 @@ func TestC20CurveConstants(t *testing.T) {
 	h.SetExtra(t, "supportsVectorizedEdwards", map[bool]string{true: "true", false: "false"}[supportsVectorizedEdwards])
 	var cases []c20Case
 	for _, n := range c20ConstNames {
-		cases = append(cases, c20Case{Name: n})
+		cases = append(cases, c20Case{Name: n, Enc: c20Backend})
 	}
 	h.RunList(t, cases, c20CheckConst)
 }
@@ -352,7 +353,7 @@ func TestC20Torsion(t *testing.T) {
 	h.SetExtra(t, "backend", c20Backend)
 	var cases []c20Case
 	for i := 0; i <= 8; i++ {
-		cases = append(cases, c20Case{Name: "EIGHT_TORSION", I: i})
+		cases = append(cases, c20Case{Name: "EIGHT_TORSION", Enc: c20Backend, I: i})
 	}
 	h.RunList(t, cases, c20CheckTorsion)
 }
@@ -408,7 +409,7 @@ func TestC20FixedBaseTable(t *testing.T) {
 	for _, n := range []string{"packedEdwardsBasepointTable", "ED25519_BASEPOINT_TABLE/generic"} {
 		for i := 0; i < 32; i++ {
 			for j := 0; j < 8; j++ {
-				cases = append(cases, c20Case{Name: n, I: i, J: j})
+				cases = append(cases, c20Case{Name: n, Enc: c20Backend, I: i, J: j})
 			}
 		}
 	}
@@ -448,7 +449,7 @@ func TestC20OddMultiples(t *testing.T) {
 	for _, n := range []string{"packedAffineOddMultiplesOfBasepoint", "packedAffineOddMultiplesOfBShl128",
 		"constAFFINE_ODD_MULTIPLES_OF_BASEPOINT", "constAFFINE_ODD_MULTIPLES_OF_B_SHL_128"} {
 		for j := 0; j < 64; j++ {
-			cases = append(cases, c20Case{Name: n, J: j})
+			cases = append(cases, c20Case{Name: n, Enc: c20Backend, J: j})
 		}
 	}
 	h.RunList(t, cases, c20CheckOdd)
@@ -461,6 +462,7 @@ func TestC20OddMultiples(t *testing.T) {
 // fixed-base tables, an odd NAF digit in [1, 127] for the odd-multiple tables.
 type c20LookupCase struct {
 	Table string
+	Enc   string // limb encoding of the build (u64 / u32)
 	I, X  int
 }
 
@@ -521,12 +523,12 @@ func c20LookupDomain(tables []string) []c20LookupCase {
 		if tb[:4] == "base" {
 			for i := 0; i < 32; i++ {
 				for x := -8; x <= 8; x++ {
-					cases = append(cases, c20LookupCase{Table: tb, I: i, X: x})
+					cases = append(cases, c20LookupCase{Table: tb, Enc: c20Backend, I: i, X: x})
 				}
 			}
 		} else {
 			for x := 1; x <= 127; x += 2 {
-				cases = append(cases, c20LookupCase{Table: tb, X: x})
+				cases = append(cases, c20LookupCase{Table: tb, Enc: c20Backend, X: x})
 			}
 		}
 	}
@@ -541,9 +543,9 @@ func TestC20LookupAll(t *testing.T) {
 func c20GenLookup(t *rapid.T) c20LookupCase {
 	tb := rapid.SampledFrom(c20LookupTables()).Draw(t, "table")
 	if tb[:4] == "base" {
-		return c20LookupCase{Table: tb, I: rapid.IntRange(0, 31).Draw(t, "i"), X: rapid.IntRange(-8, 8).Draw(t, "digit")}
+		return c20LookupCase{Table: tb, Enc: c20Backend, I: rapid.IntRange(0, 31).Draw(t, "i"), X: rapid.IntRange(-8, 8).Draw(t, "digit")}
 	}
-	return c20LookupCase{Table: tb, X: 2*rapid.IntRange(0, 63).Draw(t, "j") + 1}
+	return c20LookupCase{Table: tb, Enc: c20Backend, X: 2*rapid.IntRange(0, 63).Draw(t, "j") + 1}
 }
 
 func TestC20LookupRandom(t *testing.T) {
